@@ -22,12 +22,16 @@ func checkC16(c *Ctx) {
 	c.Rule("C16/R4", "header partition: a header node is extended exactly while the key's value equals the current node's value; a new node starts at parent.Start + j with length 1; children are built only from their parent's key range")
 	c.Rule("C16/R5", "emission: each cell is placed at its column's offset, padded to the span's total width minus the margin, the running offset advances by what was printed, and blank cells are skipped so no line ends in blanks")
 
+	c.Rule("C16/R6", "level-by-level header walk: no slice in the renderers is truncated and refilled in place while another loop-carried variable still holds the same backing array and is being read (the next level must be built in fresh storage)")
+	c.Rule("C16/R7", "shrink marks stay inside the table built so far: every column index passed to SetShrink is below the layout's current column on the path that reaches the call")
 	p := mustLoad(c, loadOpts{}, "./"+ttabRel, "./"+btabRel, "./benchproc", "./benchmath", "./benchfmt", "./benchunit")
 	c16Margins(c, p)
 	c16Siblings(c, p)
 	c16Metric(c, p)
 	c16Header(c, p)
 	c16Emit(c, p)
+	c16Refill(c, p)
+	c16Shrink(c, p)
 }
 
 func c16Margins(c *Ctx, p *Prog) {
@@ -437,4 +441,66 @@ func c16Emit(c *Ctx, p *Prog) {
 		}
 	})
 	c.Check(okSkip, R, "emit:skip-blank", site, "cells that are blank (value and margin) are skipped", "blank cells are emitted: lines end in blanks")
+}
+
+func c16Refill(c *Ctx, p *Prog) {
+	const R = "C16/R6"
+	nL, nF := 0, 0
+	for _, fn := range p.Funcs(btabRel, ttabRel, "benchproc") {
+		nF++
+		al, k := refillAliases(fn)
+		nL += k
+		for i, a := range al {
+			c.Bad(R, fmt.Sprintf("%s:refill#%d", fnName(fn), i+1), p.pos(a.Append.Pos()), fmt.Sprintf("%s is refilled in place (append onto its truncated self) while %s, which received the same slice at the end of the previous pass, is still being read at %s: with three or more header levels the children overwrite the nodes being walked and the text renderer panics or prints a wrong header where CSV renders fine", a.Names[0], a.Names[1], p.pos(a.Read.Pos())))
+		}
+	}
+	c.OK(R, "refill:none", "", fmt.Sprintf("%d loops with two or more loop-carried slices in %d functions; none refills a slice another one still reads", nL, nF))
+	ctl := mustLoad(c, loadOpts{dir: c.HomeDir + "/checker"}, "./testdata/lookbehind")
+	nCtl := 0
+	for _, fn := range ctl.Funcs("perfcheck/testdata/lookbehind") {
+		al, _ := refillAliases(fn)
+		nCtl += len(al)
+	}
+	if nCtl == 0 {
+		c.Undecided(R, "positive-control", "", "the refill-alias matcher no longer recognises its own positive example")
+	} else {
+		c.OK(R, "positive-control", "checker/testdata/lookbehind/lb.go", "matcher fires on the stored level walk")
+	}
+}
+
+func c16Shrink(c *Ctx, p *Prog) {
+	const R = "C16/R7"
+	n := 0
+	for _, fn := range p.Funcs(btabRel) {
+		eachInstr(fn, func(b *ssa.BasicBlock, in ssa.Instruction) {
+			call, ok := in.(*ssa.Call)
+			if !ok || !objIs(calleeObj(&call.Call), modPath+"/"+ttabRel, "Table", "SetShrink") {
+				return
+			}
+			n++
+			args := callArgs(&call.Call)
+			j := args[1]
+			bounded := false
+			for _, f := range factsAt(b) {
+				cmp, ok := f.Cond.(*ssa.BinOp)
+				if !ok {
+					continue
+				}
+				isCur := func(v ssa.Value) bool {
+					cc, ok := v.(*ssa.Call)
+					return ok && objIs(calleeObj(&cc.Call), modPath+"/"+ttabRel, "Table", "CurCol")
+				}
+				switch {
+				case cmp.Op == token.LSS && f.True && sameValue(cmp.X, j) && isCur(cmp.Y),
+					cmp.Op == token.GTR && f.True && sameValue(cmp.Y, j) && isCur(cmp.X),
+					cmp.Op == token.GEQ && !f.True && sameValue(cmp.X, j) && isCur(cmp.Y),
+					cmp.Op == token.LEQ && !f.True && sameValue(cmp.Y, j) && isCur(cmp.X):
+					bounded = true
+				}
+			}
+			c.Check(bounded, R, fmt.Sprintf("%s:SetShrink#%d", fnName(fn), n), p.pos(call.Pos()), "the marked column is below the layout's current column",
+				"a column is marked shrink without being tested against the layout's current column: for a column group with fewer cells than the bound assumes (the baseline group has no delta columns) the mark lands on the next group's stretch column, so a wide label over that group overflows its span and the header rules no longer line up")
+		})
+	}
+	c.Floor(R, "SetShrink calls in the table renderer", n, 1)
 }
